@@ -728,3 +728,28 @@ Proof.
       unfold class_score. rewrite HX. cbn [map qsum]. rewrite (dot_zeros_l (qV k)) by exact HV. ring.
 Qed.
 
+(* ------------------------------------------------------------------ non-vacuity *)
+Lemma nonvacuous :
+  lime_ok (Img 2 2 3) [half; half; half] (map qn (seq 0 12)) [0; 1; 1; 2]%nat /\ bs_ok (Some 2%nat) 5 /\
+  num_features [0; 1; 1; 2]%nat = 3%nat /\
+  design_injective 3 [[true; false; false]; [false; true; false]; [false; false; true]; [true; true; false]] /\
+  (forall z, In z [[true; false; false]; [false; true; false]; [false; false; true]; [true; true; false]] ->
+     coalition_ok 3 z = true) /\
+  kshap_row 3 1 [half; two; - (1)] [1; 0; 2]%nat = [false; true; false] /\
+  class_additive 2 (additive_class 1 [two; - (1)]).
+Proof.
+  split; [unfold lime_ok, kind_ok; repeat split; vm_compute; try reflexivity; lia|]. split; [vm_compute; lia|]. split; [reflexivity|]. split.
+  - intros v v0 Hl H.
+    destruct v as [|a [|b [|c [|d v]]]]; cbn [length] in Hl; try lia.
+    pose proof (H [true; false; false] (or_introl eq_refl)) as H1.
+    pose proof (H [false; true; false] (or_intror (or_introl eq_refl))) as H2.
+    pose proof (H [false; false; true] (or_intror (or_intror (or_introl eq_refl)))) as H3.
+    pose proof (H [true; true; false] (or_intror (or_intror (or_intror (or_introl eq_refl))))) as H4.
+    unfold dot, vmul, zq in *. cbn [map map2 qsum b2q] in *.
+    assert (Ea : a = 0) by (qc2q; lra). assert (Eb : b = 0) by (qc2q; lra).
+    assert (Ec : c = 0) by (qc2q; lra). assert (E0 : v0 = 0) by (qc2q; lra).
+    subst. split; reflexivity.
+  - split; [intros z Hz; cbn in Hz; repeat (destruct Hz as [<-|Hz]; [reflexivity|]); destruct Hz|].
+    split; [vm_compute; reflexivity|].
+    repeat split. intros v Hv. cbn in Hv. destruct Hv as [<-|[<-|[]]]; reflexivity.
+Qed.
